@@ -134,6 +134,7 @@ class PyEnv:
         self.count = 0
         self.faults = set()
         self.spawn_faults = {}   # command index -> errno name: the process cannot be started at all
+        self.fault_status = {}   # command index -> exit status of the injected failure (default 1)
         self.log = []
 
     # ---- parsing
@@ -379,11 +380,27 @@ class PyEnv:
                 raise SpawnFault(self.spawn_faults[idx])
             if idx in self.faults:
                 self.log.append((list(argv), False))
-                return 1, '', ''
+                return int(self.fault_status.get(idx, 1)), '', ''
+        rc_fail = self.natural_status(c)
         ok, out, err = self.apply(c)
         if not foreign:
             self.log.append((list(argv), ok))
-        return (0 if ok else 1), out, err
+        return (0 if ok else rc_fail), out, err
+
+    def natural_status(self, c):
+        """Exit status the real tool gives for a natural failure of `c` in the current state (iptables 1.8
+        nf_tables: 1 for a missing/existing chain or rule, 2 for a target chain that does not exist, 4 when the
+        kernel refuses to delete a chain that is in use; nft and pfctl: 1).  Only consulted when `c` fails."""
+        k = c[0]
+        if k == '-X':
+            tab = self.ipt[(c[1], c[2])]
+            if self.has(tab, c[3]) and c[3] not in BUILTIN_NAMES:
+                return 4
+        if k in ('-I', '-A'):
+            tab = self.ipt[(c[1], c[2])]
+            if self.has(tab, c[3]) and not self.tgt_ok(tab, c[4]):
+                return 2
+        return 1
 
     # ---- canonical text (identical to Drivers/C04.lean showState)
     @staticmethod
@@ -503,7 +520,9 @@ class Router:
             else:
                 line = ('xf ' if self.foreign else 'x ') + toks
             ans = self.lean.ask(line)[0]
-            exp = 'rc=%d out=%s err=%s' % (rc, hexs(out) if rc == 0 else '-', hexs(err) if rc == 0 else '-')
+            # (the Lean Env knows success / failure, not which non-zero status)
+            exp = 'rc=%d out=%s err=%s' % (0 if rc == 0 else 1, hexs(out) if rc == 0 else '-',
+                                           hexs(err) if rc == 0 else '-')
             if ans != exp:
                 raise Mismatch('command %r: PyEnv says %s, Lean Env says %s' % (argv, exp, ans))
         return rc, out.encode('latin-1'), err.encode('latin-1')
@@ -918,7 +937,8 @@ class Case:
     """(method, dialogue chunks, faults, prelude, flags) — JSON-able, replayable."""
 
     def __init__(self, method, chunks, faults=(), prelude=(), resolvectl=False, started_fails=False,
-                 pfinit=None, second=None, ports=(), pfrules=None, spawn=None, io=None, fd_budget=None):
+                 pfinit=None, second=None, ports=(), pfrules=None, spawn=None, io=None, fd_budget=None,
+                 status=None):
         self.method = method
         self.chunks = [c if isinstance(c, bytes) else c.encode('ASCII') for c in chunks]
         self.faults = sorted(faults)
@@ -932,6 +952,9 @@ class Case:
         # {command index: 'EAGAIN' | 'ENOENT'}: the command raises OSError from the subprocess boundary
         self.spawn = dict((int(k), v) for k, v in (spawn or {}).items())
         self.io = dict(io) if io else None       # failing log streams, see run_main
+        # {command index: exit status} of the injected failures in `faults` (default 1): iptables/ip6tables use
+        # 1 (no such rule/chain), 2 (usage, missing extension), 3 (version), 4 (kernel / resource / lock)
+        self.status = dict((int(k), int(v)) for k, v in (status or {}).items())
         self.fd_budget = fd_budget               # descriptors the helper may still open (pf cases)
 
     def fault_indices(self):
@@ -942,13 +965,13 @@ class Case:
                     prelude=self.prelude, resolvectl=self.resolvectl, started_fails=self.started_fails,
                     pfinit=self.pfinit, second=self.second, ports=self.ports,
                     spawn=dict((str(k), v) for k, v in sorted(self.spawn.items())), io=self.io,
-                    fd_budget=self.fd_budget)
+                    fd_budget=self.fd_budget, status=dict((str(k), v) for k, v in sorted(self.status.items())))
 
     @staticmethod
     def from_json(d):
         return Case(d['method'], d['dialogue'], d.get('faults', ()), d.get('prelude', ()), d.get('resolvectl', False),
                     d.get('started_fails', False), d.get('pfinit'), d.get('second'), d.get('ports', ()),
-                    spawn=d.get('spawn'), io=d.get('io'), fd_budget=d.get('fd_budget'))
+                    spawn=d.get('spawn'), io=d.get('io'), fd_budget=d.get('fd_budget'), status=d.get('status'))
 
 
 def second_instance(box, method, q, action):
@@ -1003,6 +1026,7 @@ def execute(box, case, lean=None, faults=None):
     o.foreign0 = py.foreign_view(case.ports)
     py.faults = set(case.faults if faults is None else faults)
     py.spawn_faults = dict(case.spawn)
+    py.fault_status = dict(case.status)
     py.count = 0
     py.log = []
     if lean is not None:
@@ -1122,6 +1146,7 @@ def later_session(box, case, py_after):
     box.router = router
     py.faults = set()
     py.spawn_faults = {}
+    py.fault_status = {}
     py.count = 0
     py.log = []
     box.write_hosts(HOSTS0)
@@ -1282,9 +1307,9 @@ def cuts_of(lines):
 
 
 def mk_case(plan, chunks, faults=(), prelude=(), started_fails=False, second=None, pfinit=None, spawn=None,
-            io=None):
+            io=None, status=None):
     c = Case(plan.method, chunks, faults, prelude, plan.resolvectl, started_fails, pfinit, second,
-             ports=sorted(set([plan.p6, plan.p4])), spawn=spawn, io=io)
+             ports=sorted(set([plan.p6, plan.p4])), spawn=spawn, io=io, status=status)
     c.full_chunks = [l.encode('ASCII') for l in plan.lines() if l.strip() not in ('FROBNICATE', 'HOST nocomma', '')]
     fam_has_subnets = {'v6': any(r[0] == 10 for r in plan.routes), 'v4': any(r[0] == 2 for r in plan.routes)}
     c.fam_has_subnets = fam_has_subnets
@@ -1366,6 +1391,17 @@ def run_plan(ctx, box, lean, plan, budget, with_io=False):
         ks = sorted(ctx.rng.sample(ks, budget))
     for k in ks:
         do(mk_case(plan, lines, faults=[k]))
+    # the exit statuses the real tools produce: iptables/ip6tables fail with 1, 2, 3 or 4 (nft and pfctl with 1
+    # only, covered above); every iptables command index fails with a status other than 1 as well
+    ipt_ks = [k for k in ks if o0.log[k][0][0] in ('iptables', 'ip6tables')]
+    for k in ipt_ks:
+        for st in ((2, 3, 4) if ctx.thorough else ((2, 3, 4)[k % 3],)):
+            do(mk_case(plan, lines, faults=[k], status={k: st}))
+    # a kernel without the owner match: every command that uses `-m owner` (the mangle MARK rule of a
+    # --user/--group session, at set-up and at tear-down) exits with status 2
+    owner_ks = [k for k in range(o0.ncmd) if 'owner' in o0.log[k][0]]
+    if owner_ks:
+        do(mk_case(plan, lines, faults=owner_ks, status=dict((k, 2) for k in owner_ks)))
     # every k-th command cannot be spawned at all: OSError (EAGAIN from fork / ENOENT from exec) raised at
     # the subprocess boundary instead of an exit status -- set-up and tear-down, both families
     for k in ks:
@@ -1406,7 +1442,10 @@ def run_plan(ctx, box, lean, plan, budget, with_io=False):
         ctx.count()
         if case.io:
             ctx.hist('%s:log-stream-%s-v%d' % (plan.method, case.io['err'], case.io['verbose']))
-        ctx.mark((case.method, case.chunks, case.faults, sorted(case.spawn.items()), sorted((case.io or {}).items()), bool(case.prelude), case.second,
+        if case.status:
+            ctx.hist('%s:fault-status-%s' % (plan.method, '+'.join(str(v) for v in sorted(set(case.status.values())))))
+        ctx.mark((case.method, case.chunks, case.faults, sorted(case.status.items()), sorted(case.spawn.items()),
+                  sorted((case.io or {}).items()), bool(case.prelude), case.second,
                   case.started_fails), o.ncmd > 0)
         bad, phase = check_oracle(ctx, box, case, o)
         ctx.hist('%s:%s-%s' % (plan.method, 'spawn-error' if case.spawn else 'fault', phase))
